@@ -16,7 +16,7 @@ META = {
     "technique": "Lean 4 proof (inductive invariant with a ghost transfer flag; omega) + replay of real atomic traces with side-count tracking + nesting-depth oracle",
 }
 
-THEOREMS = ["C06.suspend_count_exact", "C06.suspended_iff", "C06.inactive_blocked_iff", "C06.activation_count_exact", "C06.drainer_leaves_runnable_queue_enqueued", "C06.drainer_leaves_dirty", "C06.F23_as_found", "C06.F23_fixed", "C06.consts"]
+THEOREMS = ["C06.suspend_count_exact", "C06.suspended_iff", "C06.inactive_blocked_iff", "C06.activation_count_exact", "C06.drainer_leaves_runnable_queue_enqueued", "C06.drainer_leaves_dirty", "C06.F23_as_found", "C06.F23_fixed", "C06.F43_as_found", "C06.inactive_configure_keeps_count", "C06.consts"]
 
 
 def run(ctx):
@@ -57,6 +57,9 @@ def run(ctx):
     run_lane(ctx, [(6, 300, 0), (10, 200, 0)] if not ctx.thorough else [(6, 3000, 0), (10, 2000, 0), (16, 1000, 0)], layer="L-trace lane (suspend storms)", what="c06")
     # regression for F14 (repaired): a queue suspended while its drainer holds a pending-barrier reservation must run again after the resume
     forced(ctx, "f14_pending_barrier", "F14", "lane:stranded:pending-barrier-reserved-twice", "F14")
+    # inactive objects suspended around the capacity of the inline counter and then configured (F43); blocked synchronous callers under signals
+    from tracecheck import run_traces
+    run_traces(ctx, "c06_inactive", [[ctx.seed * 10 + i] for i in range(3 if ctx.thorough else 1)], None, None, "L-api inactive objects / signals at blocked callers", "inactive", timeout=300)
     ctx.cov["rule"] = ("c06_suspend: depths {1,2,31..33,63..65,95..97,127..129,200} x {external, from own item, from barrier item, inactive+activate}, plus the one-committed-item "
                        "scenario; property setters (set_target_queue / set_width on active queues) held before they give their temporary suspension back while another thread nests "
                        "{1,31,32,62,63,64,95,96,127,130} suspensions and resumes down to inline count 0 or a random number; tr_lane: suspend/resume pairs and 70/130-deep nests from client threads concurrent with async/sync traffic. distinct_nontrivial = suspend/resume/activate "
